@@ -356,6 +356,8 @@ type C20Remote struct {
 	P   Pair `json:"p"`
 	Del bool `json:"del,omitempty"`
 	Age int  `json:"age"`
+	// Now: stamped with the current time (a peer changed the pair after this instance captured it)
+	Now bool `json:"now,omitempty"`
 }
 
 func pairKey(k, v []byte) string { return string(k) + "\x00|\x00" + string(v) }
@@ -508,6 +510,48 @@ func checkC20Cycle(c C20Cycle, o *vcore.Obs) error {
 	uncaptured := len(c.Initial) > 0
 	for si, stp := range c.Steps {
 		step := fmt.Sprintf("step %d (%s)", si, stp.Kind)
+		if stp.Kind == "rreplace" {
+			// a peer REPLACES one of the pairs this instance holds by one with the same key and a smaller value, after
+			// this instance captured it: the snapshot carries a marker for the old pair and the new pair, both stamped now
+			// (the number of live pairs stays the same)
+			if uncaptured {
+				continue
+			}
+			var cur [][2][]byte
+			for _, p := range mainPairs {
+				cur = append(cur, p)
+			}
+			sort.Slice(cur, func(i, j int) bool { return pairKey(cur[i][0], cur[i][1]) < pairKey(cur[j][0], cur[j][1]) })
+			if len(cur) == 0 {
+				continue
+			}
+			p := cur[stp.Idx%len(cur)]
+			v := p[1]
+			var smaller []byte
+			switch {
+			case len(v) > 0 && v[len(v)-1] > 1:
+				smaller = append(append([]byte{}, v[:len(v)-1]...), v[len(v)-1]-1)
+			case len(v) > 1 && !c.DupFixed:
+				smaller = append([]byte{}, v[:len(v)-1]...)
+			default:
+				// (fixed-size duplicates keep their size: lower the last byte that can be lowered)
+				for i := len(v) - 1; i >= 0 && smaller == nil; i-- {
+					if v[i] > 1 {
+						smaller = append([]byte{}, v...)
+						smaller[i]--
+					}
+				}
+				if smaller == nil {
+					continue
+				}
+			}
+			if _, dup := mainPairs[pairKey(p[0], smaller)]; dup {
+				continue
+			}
+			stp.Remote = []C20Remote{{P: Pair{K: p[0], V: model.ValOf(v)}, Del: true, Now: true}, {P: Pair{K: p[0], V: model.ValOf(smaller)}, Now: true}}
+			stp.Kind = "remote"
+			o.Class("peer-replaces-a-held-pair-by-a-smaller-value")
+		}
 		switch stp.Kind {
 		case "app":
 			err := env.Update(func(txn *lmdb.Txn) error {
@@ -685,6 +729,9 @@ func checkC20Cycle(c C20Cycle, o *vcore.Obs) error {
 				}
 				seen[string(e)] = true
 				ts := 1_000_000_000_000_000_001 + uint64(r.Age)
+				if r.Now {
+					ts = uint64(time.Now().UnixNano())
+				}
 				if r.Del {
 					v = nil
 				}
@@ -953,8 +1000,10 @@ func genC20Cycle(t *rapid.T) C20Cycle {
 	n := rapid.IntRange(1, 8).Draw(t, "nsteps")
 	for i := 0; i < n; i++ {
 		var s C20Step
-		s.Kind = rapid.SampledFrom([]string{"app", "send", "send", "remote", "replace", "replace"}).Draw(t, "kind")
+		s.Kind = rapid.SampledFrom([]string{"app", "send", "send", "remote", "replace", "replace", "rreplace"}).Draw(t, "kind")
 		switch s.Kind {
+		case "rreplace":
+			s.Idx = rapid.IntRange(0, 20).Draw(t, "rridx")
 		case "replace":
 			s.Idx = rapid.IntRange(0, 20).Draw(t, "ridx")
 			if rapid.Bool().Draw(t, "rlong") {
